@@ -140,6 +140,9 @@ def session_family(ctx, extra_args=None, runs=None):
 
 @pipeline("C01", "C02")
 def p_session(ctx):
+    if ctx.prop == "C02":
+        # the text model itself: offsets <-> line/column one to one, on all small buffers
+        ctx.tlc("MC_Text.tla", "MC_Text_quick.cfg" if ctx.quick else "MC_Text.cfg", "mctext", workers=8, timeout=1800)
     viols, cov, _ = session_family(ctx)
     finish(ctx, viols, cov, assumptions=[
         "buffers are valid UTF-8 without CR, cut at lexer-token boundaries (DESIGN 5/C01)",
@@ -267,6 +270,8 @@ def p_c04(ctx):
 
 @pipeline("C18")
 def p_c18(ctx):
+    # the algebra of text-moving edits on the specification's text model (ShiftSound, LenAdditive) on all small buffers
+    ctx.tlc("MC_Text.tla", "MC_Text_quick.cfg" if ctx.quick else "MC_Text.cfg", "mctext", workers=8, timeout=1800)
     q = [["shift", "-worlds", "kinds,tf", "-stride", "5", "-maxins", "8"]]
     t = [["shift", "-worlds", "kinds,tf,hostile", "-stride", "1", "-maxins", "0"]]
     bad, info, files = driver_trace(ctx, q if ctx.quick else t, "queries")
